@@ -332,10 +332,27 @@ theorem valid_reads_exist {O : Oracle} {w : World} {g : Feat} (h : valid O w g =
             | none => simp [hla, hlb] at hp
             | some y => obtain ⟨g', hg', _⟩ := locOf_some hlb; simp [hg']
 
+theorem closure_closed (w : World) (id : Id) : ∀ (k : Nat) (S R : List Id),
+    closure w id k S = some R → closedSet w id R = true := by
+  intro k
+  induction k with
+  | zero => intro S R h; simp [closure] at h
+  | succ k ih =>
+    intro S R h
+    simp only [closure] at h
+    split at h
+    · rename_i hnew
+      injection h with h; subst h
+      simp only [closedSet, List.all_eq_true, decide_eq_true_eq]
+      intro s hs
+      rw [List.isEmpty_iff] at hnew
+      have : s ∉ (directRefs w id S).filter (fun s => decide (s ∉ S)) := by rw [hnew]; simp
+      simpa [hs] using this
+    · exact ih _ _ h
+
 theorem edits_valid (O : Oracle) (w w' : World) (f : Feat) (hu : Uniq w)
     (hv : ∀ g ∈ w, valid O w g = true)
     (hk : ∀ g ∈ w, g.id = f.id → sameCtor g f = true)
-    (hcl : closedSet w f.id (referrers w f.id) = true)
     (h : addFeature O w f = .ok w') : ∀ g ∈ w', valid O w' g = true := by
   unfold addFeature at h
   cases hvf : validateFeature O false w f with
@@ -413,6 +430,11 @@ theorem edits_valid (O : Oracle) (w w' : World) (f : Feat) (hu : Uniq w)
                     simp [sameCtor, hgeo', hg] at this
       by_cases hex : (find w f.id).isSome = true
       · simp only [hex, ↓reduceIte] at h
+        cases hr : referrers w f.id with
+        | none => simp [hr] at h
+        | some R =>
+        have hcl : closedSet w f.id R = true := closure_closed w f.id _ _ R hr
+        simp only [hr] at h
         split at h
         · cases h
         · cases h
@@ -422,10 +444,10 @@ theorem edits_valid (O : Oracle) (w w' : World) (f : Feat) (hu : Uniq w)
           intro g hg
           rcases mem_put hu hg with rfl | ⟨hgw, hgid⟩
           · exact hfnew
-          · by_cases hin : g.id ∈ referrers w f.id
+          · by_cases hin : g.id ∈ R
             · have hfind : find (put w f) g.id = some g := by
                 rw [find_put]; simp only [hgid, ↓reduceIte]; exact find_of_mem hu hgw
-              have hmem : g ∈ (referrers w f.id).filterMap (find (put w f)) :=
+              have hmem : g ∈ (R).filterMap (find (put w f)) :=
                 List.mem_filterMap.mpr ⟨g.id, hin, hfind⟩
               have := hall g hmem
               cases hvg : validateFeature O false (put w f) g with
@@ -472,5 +494,125 @@ theorem edits_valid (O : Oracle) (w w' : World) (f : Feat) (hu : Uniq w)
             intro i refs hfind
             obtain ⟨h3, h4⟩ := h2 i refs hfind
             exact ⟨fun a hh => hne a (h3 a hh), fun b hl => hne b (h4 b hl)⟩
+
+/-- the same for any re-validated referrer set that is closed under "references a member" — the
+shape of `MutableOverlayWorld.AddFeature`, whose referrers come from the world's own `FindReferences` -/
+theorem edits_valid_with (O : Oracle) (w w' : World) (f : Feat) (R : List Id) (hu : Uniq w)
+    (hv : ∀ g ∈ w, valid O w g = true)
+    (hk : ∀ g ∈ w, g.id = f.id → sameCtor g f = true)
+    (hcl : closedSet w f.id R = true)
+    (h : addFeatureWith O w f R = .ok w') : ∀ g ∈ w', valid O w' g = true := by
+  unfold addFeatureWith at h
+  cases hvf : validateFeature O false w f with
+  | none => simp [hvf] at h
+  | some p =>
+    obtain ⟨b, f0⟩ := p
+    cases b with
+    | false => simp [hvf] at h
+    | true =>
+      simp only [hvf] at h
+      -- the new feature is valid in the new world
+      have hfw : valid O w f = true := validate_valid hvf
+      have hctor_of_find : ∀ g, find w f.id = some g → sameCtor g f = true := by
+        intro g hg; obtain ⟨h1, h2⟩ := find_some_mem hg; exact hk g h1 h2
+      have hfnew : valid O (put w f) f = true := by
+        apply valid_put _ _ hfw
+        · intro refs hg hin
+          have hr := (valid_reads_exist hfw).1 refs hg
+          unfold valid at hfw
+          simp only [hg, Bool.and_eq_true] at hfw
+          cases hs : pathSlots w refs with
+          | none => simp [hs] at hfw
+          | some slots =>
+            obtain ⟨k, hk'⟩ := pathSlots_some hs f.id hin
+            obtain ⟨g', hg', hgeo'⟩ := locOf_some hk'
+            have := hctor_of_find g' hg'
+            simp [sameCtor, hgeo', hg] at this
+        · intro polys hg pid hpid
+          have hr := (valid_reads_exist hfw).2 polys hg pid hpid
+          unfold valid at hfw
+          simp only [hg, List.all_eq_true] at hfw
+          have hp := hfw pid hpid
+          unfold areaPathOk at hp
+          constructor
+          · intro e
+            subst e
+            cases hf : find w f.id with
+            | none => simp [hf] at hp
+            | some p =>
+              obtain ⟨i, gg⟩ := p
+              cases gg with
+              | path refs => have := hctor_of_find _ hf; simp [sameCtor, hg] at this
+              | point l => simp [hf] at hp
+              | area l => simp [hf] at hp
+              | other l => simp [hf] at hp
+          · intro i refs hfind
+            simp only [hfind] at hp
+            constructor
+            · intro a hh e
+              subst e
+              cases hl : refs.getLast? with
+              | none => simp [hh, hl] at hp
+              | some b =>
+                simp only [hh, hl] at hp
+                cases hla : locOf w f.id with
+                | none => simp [hla] at hp
+                | some x =>
+                  obtain ⟨g', hg', hgeo'⟩ := locOf_some hla
+                  have := hctor_of_find g' hg'
+                  simp [sameCtor, hgeo', hg] at this
+            · intro b hl e
+              subst e
+              cases hh : refs.head? with
+              | none => simp [hh] at hp
+              | some a =>
+                simp only [hh, hl] at hp
+                cases hla : locOf w a with
+                | none => simp [hla] at hp
+                | some x =>
+                  cases hlb : locOf w f.id with
+                  | none => simp [hla, hlb] at hp
+                  | some y =>
+                    obtain ⟨g', hg', hgeo'⟩ := locOf_some hlb
+                    have := hctor_of_find g' hg'
+                    simp [sameCtor, hgeo', hg] at this
+      split at h
+      · cases h
+      · cases h
+      · rename_i hfold
+        injection h with h; subst h
+        have hall := (fold_validate _ _ hfold).2
+        intro g hg
+        rcases mem_put hu hg with rfl | ⟨hgw, hgid⟩
+        · exact hfnew
+        · by_cases hin : g.id ∈ R
+          · have hfind : find (put w f) g.id = some g := by
+              rw [find_put]; simp only [hgid, ↓reduceIte]; exact find_of_mem hu hgw
+            have hmem : g ∈ (R).filterMap (find (put w f)) :=
+              List.mem_filterMap.mpr ⟨g.id, hin, hfind⟩
+            have := hall g hmem
+            cases hvg : validateFeature O false (put w f) g with
+            | none => simp [hvg] at this
+            | some p =>
+              obtain ⟨b, g'⟩ := p
+              simp only [hvg, Option.map_some, Option.some.injEq] at this
+              subst this
+              exact validate_valid hvg
+          · have hreads := not_in_closed hcl hgw hin
+            apply valid_put _ _ (hv g hgw)
+            · intro refs hgeo hmem
+              exact (hreads f.id (by simp [refsOf, hgeo, hmem])).1 rfl
+            · intro polys hgeo pid hpid
+              have hr := hreads pid (by simp only [refsOf, hgeo]; exact hpid)
+              refine ⟨hr.1, ?_⟩
+              intro i refs hfind
+              obtain ⟨hpm, hpi⟩ := find_some_mem hfind
+              simp only at hpi
+              have hreads2 := not_in_closed hcl hpm (by simp only; rw [hpi]; exact hr.2)
+              constructor
+              · intro a hh
+                exact (hreads2 a (by simp only [refsOf]; exact head_mem hh)).1
+              · intro b hl
+                exact (hreads2 b (by simp only [refsOf]; exact last_mem hl)).1
 
 end B6.Lemmas.ValidateEdits
